@@ -1840,8 +1840,8 @@ def _run(ctx, rng, thorough):
     # ---------------------------------------------------------------- threads: a search, not a proof
     for k in range(ctx.n(2, 40)):
         ctx.check("threads.search", {"seed": ctx.seed * 1000 + k, "threads": 8, "flips": True})
-    for k in range(ctx.n(2, 12)):
-        ctx.check("threads.cold_start", {"seed": ctx.seed * 100 + k, "reps": 25 if not thorough else 120, "threads": 8})
+    for k in range(ctx.n(2, 10)):
+        ctx.check("threads.cold_start", {"seed": ctx.seed * 100 + k, "reps": 25 if not thorough else 80, "threads": 8})
     _lap(ctx, "threads")
     ctx.note("threads.search and threads.cold_start are SEARCHES over real CPython schedules (8 threads, switch interval "
              "1e-6 s; warm caches with concurrent clears and backend flips, and first uses from purged lazy state in fresh "
